@@ -15,11 +15,12 @@ var _ = math.Float64bits
 
 // out prints one trace line. A program that prints without end is stopped here, in both
 // worlds alike, so that runaway behaviour shows as a difference of traces and not as a time-out.
-var outLines, outLimit int
+var outLimit int
 
 func out(s string) {
-	outLines++
-	if outLimit > 0 && outLines > outLimit {
+	// the line count lives outside the package variables: a runaway program may run its
+	// package initialisation again and again
+	if outLimit > 0 && countLine() > outLimit {
 		println("RUNAWAY: more trace lines than this program can print")
 		hardExit()
 	}
@@ -188,6 +189,12 @@ import "github.com/gopherjs/gopherjs/js"
 
 func hardExit() { js.Global.Get("process").Call("exit", 3) }
 
+func countLine() int {
+	n := js.Global.Get("verifTraceLines").Int() + 1
+	js.Global.Set("verifTraceLines", n)
+	return n
+}
+
 func argv(i int) string {
 	a := js.Global.Get("process").Get("argv")
 	if a.Length() > i+2 {
@@ -204,6 +211,13 @@ package main
 import "os"
 
 func hardExit() { os.Exit(3) }
+
+var traceLines int
+
+func countLine() int {
+	traceLines++
+	return traceLines
+}
 
 func argv(i int) string {
 	if len(os.Args) > i+1 {
